@@ -454,6 +454,15 @@ class TextModel:
         ids = self.ids()
         if new is None:
             return self.dropid(i)
+        if new == "*" and r[0] in "EGOU":
+            # the line is made anonymous (only generated by the optional features rename_star / dropid): refused
+            # while a group lists it; otherwise the state follows, but callers that compare stop
+            if old is None:
+                return "noop"
+            if old in self.mentioned():
+                return "illegal:name-mentioned"
+            r[1] = "*"
+            return "ambiguous:made-anonymous"
         if not re.match("^%s$" % _N, new):
             return "ambiguous:odd-name"
         if new in ids and ids[new] != i:
@@ -549,6 +558,16 @@ PROFILE = {
 }
 
 
+# Optional profile entries (absent = off, the default output does not change):
+#   copy=p               an addition is, with probability p, a second line with exactly the text of a stored line that
+#                        carries no identifier (E/G/O/U '*', F, C without ID)                      label add:<RT>:copy
+#   rm_copy=p            an rmline step aims, with probability p, at one of several lines with the same text
+#                                                                                                label rmline:<RT>:copy
+#   ops["dropid"]=w      a connected line loses its identifier: ID tag of an L/C line deleted (["deltag", n, "ID"],
+#                        ["settag", n, "ID", None], ["setfield", n, "name", None]), E/G/O/U renamed to '*'
+#                                                                                                label dropid:<RT>
+#   fails["rename-placeholder"]=w   a rename to an identifier that is mentioned but not defined
+#                                                                                  label fail:rename-placeholder:<RT>
 def profile(**kw):
     p = dict(PROFILE)
     p["ops"] = dict(PROFILE["ops"]); p["fails"] = dict(PROFILE["fails"])
